@@ -103,10 +103,11 @@ def make_computer(Lv, Sv, centered, kaldi, record):
     assert c.frame_length == Lv and c.frame_shift == Sv, (c.frame_length, c.frame_shift, Lv, Sv)
     orig = c._compute_frame
 
-    def wrapped(frame, coeffs):
+    def wrapped(frame, coeffs, *a, **k):
+        # extra positional / keyword arguments of the per-frame routine are forwarded untouched
         record.append([int(round(float(v))) for v in frame])
         assert np.array_equal(np.asarray(frame, dtype=np.float64), np.asarray(record[-1], dtype=np.float64))
-        return orig(frame, coeffs)
+        return orig(frame, coeffs, *a, **k)
 
     c._compute_frame = wrapped
     return c
